@@ -433,6 +433,13 @@ func runC11(c *Ctx) {
 		c.Check(fresh && nRet > 0, "R5.ownreply", shortFn(rd)+"|every frame is a buffer of its own", w.FnPos(rd), "the frame returned is allocated by the read", "the framed read can hand out memory it did not allocate ("+why+"): a value kept from one request is overwritten by the next one outside the mutex")
 	}
 
+	// ... and it is the whole frame: a reply read short leaves its tail on the shared connection, where the next caller's
+	// exchange reads it as the start of its own reply (the framing rules of C10/C12, restricted to how the frame is read)
+	nFr := c.WithRulesKept(map[string]string{"R3.framing": "R5.ownreply"}, func(construct, detail string) bool {
+		return strings.Contains(construct, ".read|reads exactly") || strings.Contains(construct, ".read|prefix and body") || strings.Contains(construct, ".read|connection handed") || strings.HasPrefix(construct, "anchor:")
+	}, func() { framingRules(c, "R3.framing", []string{shimPkg, yubiPkg}) })
+	c.Floor("R5.ownreply", nFr, 2, "framed reads checked for reading the whole frame")
+
 	// R4: yubiagent client
 	yp := w.Pkg("agent/yubiagent")
 	if yp == nil {
